@@ -305,7 +305,11 @@ func (r *Run) Finish() {
 		_ = os.WriteFile(p, b, 0o644)
 		if i < 25 {
 			lines = append(lines, fmt.Sprintf("VIOLATION property=%s replay=%s", r.Prop, p))
-			fmt.Fprintf(os.Stderr, "  %s: %s\n", f.Key, f.What)
+			w := f.What
+			if len(w) > 300 {
+				w = w[:300] + "..."
+			}
+			fmt.Fprintf(os.Stderr, "  %s: %s\n", f.Key, w)
 		}
 	}
 	cov := map[string]any{}
@@ -404,6 +408,13 @@ func Parallel(n int, fn func(i int)) {
 		}()
 	}
 	wg.Wait()
+}
+
+// Sequential has Parallel's signature but runs in order on the calling goroutine.
+func Sequential(n int, fn func(i int)) {
+	for i := 0; i < n; i++ {
+		fn(i)
+	}
 }
 
 func J(v any) string {
